@@ -178,7 +178,7 @@ def campaign(n, pid, count, seed=1):
             if rc != 0:
                 rec["outcome"] = "does-not-compile"
             else:
-                ids = [pid] + [q for q in related if f in PROPS[q]["anchors"]["files"]]
+                ids = [pid] + [q for q in related if f in PROPS[q]["anchors"]["files"]][:2]
                 res = lane.run_checks(n, ids, env={"VERIF_NO_SHRINK": "1"}, timeout=900)
                 rec["checks"] = {k: {"exit": v["exit"], "keys": v["keys"][:3], "wall_s": v["wall_s"]} for k, v in res.items()}
                 if any(v["exit"] == 1 for v in res.values()): rec["outcome"] = "caught"
